@@ -170,6 +170,62 @@ class FixRun:
         return self._second
 
 
+# --------------------------------------------------------------------------- token sequence comparison
+
+
+def seq_diff(tree_toks, relexed):
+    """First disagreement between tree leaves and relexed tokens.
+
+    Returns None, or (kind, tree_leaves_involved, relexed_tokens_involved) where kind is
+      merge  - several leaves are lexed as fewer tokens (boundaries lost)
+      split  - fewer leaves are lexed as more tokens
+      shift  - same text, boundaries moved without a simple merge/split
+      retype - same boundaries, another coarse kind (whitespace/newline/comment/code)
+      text   - the two sequences do not even spell the same text
+    """
+    n = min(len(tree_toks), len(relexed))
+    i = 0
+    while i < n and tree_toks[i][0] == relexed[i][0]:
+        if tree_toks[i][1] != relexed[i][1]:
+            return "retype", [tree_toks[i]], [relexed[i]]
+        i += 1
+    if i == len(tree_toks) and i == len(relexed):
+        return None
+    # re-synchronise: extend both sides until the accumulated text is equal
+    a, b = i, i
+    sa, sb = "", ""
+    while True:
+        if len(sa) <= len(sb) and a < len(tree_toks):
+            sa += tree_toks[a][0]
+            a += 1
+        elif b < len(relexed):
+            sb += relexed[b][0]
+            b += 1
+        elif a < len(tree_toks):
+            sa += tree_toks[a][0]
+            a += 1
+        else:
+            break
+        if sa == sb and sa:
+            break
+        if not (sa.startswith(sb) or sb.startswith(sa)):
+            return "text", tree_toks[i:a], relexed[i:b]
+    if sa != sb:
+        return "text", tree_toks[i:a], relexed[i:b]
+    ta, tb = tree_toks[i:a], relexed[i:b]
+    if len(tb) == 1 and len(ta) > 1:
+        kind = "merge"
+    elif len(ta) == 1 and len(tb) > 1:
+        kind = "split"
+    elif len(ta) > len(tb):
+        kind = "merge"
+    elif len(ta) < len(tb):
+        kind = "split"
+    else:
+        kind = "shift"
+    return kind, ta, tb
+
+
 # --------------------------------------------------------------------------- attribution
 
 
@@ -227,24 +283,51 @@ def pinned_slice(tier, rulesets, per_dialect_quick=2, per_dialect_thorough=12, o
             yield case
 
 
-def rules_strategy(named=("format", "layout", "core", "all"), singles=True, single_weight=1):
-    opts = [st.sampled_from(list(named))] * 3
-    if singles:
-        opts += [st.sampled_from(SINGLE_RULES)] * single_weight
-    return st.one_of(*opts)
+def rules_strategy(named=("format", "layout", "core", "all"), singles=True, single_share=0.25):
+    """Flat sampled_from (Hypothesis draws it close to uniformly): named sets, and single rules for about
+    ``single_share`` of the cases."""
+    named = list(named)
+    if not singles:
+        return st.sampled_from(named)
+    k = max(1, round(len(SINGLE_RULES) * (1 - single_share) / single_share / len(named)))
+    return st.sampled_from(named * k + SINGLE_RULES)
+
+
+_SPLIT = re.compile(r"('(?:[^']|'')*'|--[^\n]*\n|/\*.*?\*/)", re.S)
+
+
+def sprinkle_comments(sql, rng, p=0.12):
+    """Layout noise the G-sql generator does not produce: comments in the middle of clauses (after commas, operators,
+    keywords).  Inserted only at existing blanks outside string literals and comments, so the query stays valid."""
+    parts = _SPLIT.split(sql)
+    out = []
+    for i, part in enumerate(parts):
+        if i % 2:  # literal or comment
+            out.append(part)
+            continue
+        pieces = re.split(r"( +)", part)
+        for j, piece in enumerate(pieces):
+            out.append(piece)
+            if j % 2 and rng.random() < p:
+                out.append(rng.choice(["-- k1\n", "/* k2 */ ", "-- k3\n    ", "/* k4 */"]))
+    return "".join(out)
 
 
 @st.composite
-def fix_case(draw, tier="quick", rules=None, mutate=None, gsql_weight=2, corpus_weight=3, gsql_features=None,
-             kinds=None):
+def fix_case(draw, tier="quick", rules=None, mutate=None, gsql_weight=2, fixture_weight=2, mutated_weight=2,
+             gsql_features=None, kinds=None, comments_inside=False):
     """Corpus fixture (optionally mutated) in any dialect, or a generated valid sqlite query with layout noise."""
     maxsize = size_limit(tier)
-    which = draw(st.integers(0, gsql_weight + corpus_weight - 1))
-    if which < gsql_weight:
+    if mutate is False:
+        mutated_weight = 0
+    which = draw(st.sampled_from(["gsql"] * gsql_weight + ["fixture"] * fixture_weight + ["mutated"] * mutated_weight))
+    if which == "gsql":
         d = draw(st.sampled_from(["sqlite", "sqlite", "ansi", "postgres", "duckdb"]))
         c = draw(gens.gsql_case(dialect=d, **(gsql_features or {})))
+        if comments_inside and draw(st.booleans()):
+            c["sql"] = sprinkle_comments(c["sql"], draw(st.randoms(use_true_random=False)))
     else:
-        c = draw(gens.corpus_case(maxsize=maxsize, mutate=mutate, max_ops=2, kinds=kinds))
+        c = draw(gens.corpus_case(maxsize=maxsize, mutate=(which == "mutated"), max_ops=2, kinds=kinds))
     c["rules"] = draw(rules if rules is not None else rules_strategy())
     return c
 
